@@ -31,7 +31,8 @@ class ExprMixin:
         if name in env:
             v = env[name]
             if isinstance(v, Ref):
-                if v.cell in self.st.moved and v.cell not in self.st.param_cells:
+                if v.cell in self.st.moved and v.cell not in self.st.param_cells \
+                        and not getattr(self, "_final_read", False):
                     raise Unsupported(f"alias hazard: '{name}' used after being embedded at line {self.st.moved[v.cell]} (line {line})")
                 if v in self.st.dead_refs:
                     raise Unsupported(f"'{name}': place invalidated by a structural list mutation (line {line})")
